@@ -85,9 +85,12 @@ theorem deliver_refines (h : RecRel I rec rec') (ty v root obs d : Nat)
     absP I (deliver cfg rec ty v root obs d acc r) =
       deliver cfg rec' ty v root obs d (absP I acc) r := by
   obtain ⟨s, cl⟩ := acc
-  cases hf : r.filt <;> cases ho : r.once <;> cases ha : r.async <;> cases hacc : r.accepts v <;>
-    simp only [deliver, absP, hf, ho, ha, hacc, absSt_c, Bool.not_true, Bool.not_false,
-      Bool.false_and, Bool.true_and, if_true, if_false, Bool.false_eq_true] <;>
+  by_cases h0 : root = 0 <;>
+  cases hf : r.filt <;> cases hfc : r.filtCancels <;> cases ho : r.once <;> cases ha : r.async <;>
+    cases hacc : r.accepts v <;>
+    simp only [deliver, absP, cancelRoot, h0, hf, hfc, ho, ha, hacc, absSt_c, Bool.not_true, Bool.not_false,
+      Bool.false_and, Bool.true_and, Bool.and_true, Bool.and_false, Option.isSome_none, Option.isSome_some,
+      if_true, if_false, Bool.false_eq_true] <;>
     (repeat' split) <;>
     first
       | rfl
@@ -254,9 +257,9 @@ behaviour `rec` of nested calls -/
 
 theorem subscribe_spec {R : Type} (I : RegImpl R) (hI : I.Lawful) (cfg : Config)
     (rec : Frame → St R → Action → St R) (fr : Frame) (s : St R)
-    (ty hid : Nat) (once async seq : Bool) (filt : Option (Nat × Nat)) (body : Nat) :
-    let s' := step I cfg rec fr s (.subscribe ty hid once async seq filt body)
-    I.get s'.reg ty = I.get s.reg ty ++ [⟨s.c.nextRid, ty, hid, once, async, seq, filt, body⟩] ∧
+    (ty hid : Nat) (once async seq : Bool) (filt : Option (Nat × Nat)) (body : Nat) (fcancel : Bool) :
+    let s' := step I cfg rec fr s (.subscribe ty hid once async seq filt body fcancel)
+    I.get s'.reg ty = I.get s.reg ty ++ [⟨s.c.nextRid, ty, hid, once, async, seq, filt, body, fcancel⟩] ∧
     (∀ t, t ≠ ty → I.get s'.reg t = I.get s.reg t) ∧ s'.c.trace = s.c.trace := by
   intro s'
   refine ⟨?_, ?_, rfl⟩
